@@ -103,6 +103,35 @@ fn reader_side(case: &str, t: i32, shp: &[u8], shx: &[u8], n: usize, written: &[
             let at = again.iter().zip(seq.iter()).position(|(a, b)| a != b).unwrap_or(again.len().min(seq.len()));
             return bad("reader.iter-after-random-access", J::obj(vec![("items", J::UInt(again.len() as u64)), ("written", J::UInt(n as u64)), ("first_difference_at", J::UInt(at as u64))]));
         }
+        // ... and after seek(k): the hint is the number of shapes still to come, at every step
+        if n >= 2 {
+            let k = 1 + n / 3;
+            if let Err(e) = with_idx.seek(k) {
+                return bad("reader.seek", J::s(err_class(&e)));
+            }
+            let mut it = with_idx.iter_shapes();
+            let mut got = 0usize;
+            loop {
+                let remaining = (n - k).saturating_sub(got);
+                let hint = it.size_hint();
+                if hint != (remaining, Some(remaining)) {
+                    return bad("reader.size_hint-after-seek", J::obj(vec![("seek", J::UInt(k as u64)), ("consumed", J::UInt(got as u64)), ("hint_lo", J::UInt(hint.0 as u64)), ("hint_hi", hint.1.map(|h| J::UInt(h as u64)).unwrap_or(J::Null)), ("remaining", J::UInt(remaining as u64))]));
+                }
+                match it.next() {
+                    None => break,
+                    Some(Ok(s)) => {
+                        if k + got >= n || s.d() != seq[k + got] {
+                            return bad("reader.iter-after-seek", J::obj(vec![("seek", J::UInt(k as u64)), ("item", J::UInt(got as u64))]));
+                        }
+                        got += 1;
+                    }
+                    Some(Err(e)) => return bad("reader.iter-after-seek", J::s(err_class(&e))),
+                }
+            }
+            if got != n - k {
+                return bad("reader.iter-after-seek", J::obj(vec![("seek", J::UInt(k as u64)), ("items", J::UInt(got as u64)), ("expected", J::UInt((n - k) as u64))]));
+            }
+        }
         for i in [n, n + 1, n + 7] {
             if with_idx.read_nth_shape(i).is_some() {
                 return bad("reader.nth-past-end", J::obj(vec![("index", J::UInt(i as u64))]));
@@ -144,15 +173,30 @@ pub fn run(ctx: &Ctx, with_reader_side: bool) -> Report {
         // files with a number of records (point types) or a shape with a number of points /
         // parts (polyline) that straddles a power of two
         let sizes = gen::threshold_sizes(ctx.thorough);
-        let large: Option<usize> = if i >= 10 && i < 10 + sizes.len() && matches!(t, 1 | 11 | 3 | 25) { Some(sizes[i - 10]) } else { None };
-        let shapes: Vec<Shape> = if i == 0 {
+        // (every type: the point types by records, the others by points per part and by parts; each
+        // type meets a third of the sizes, rotating, plus 33 / 65 / 129 points in one part)
+        let large: Option<usize> = if i >= 10 && i < 10 + sizes.len() && (matches!(t, 1 | 11 | 3 | 25) || i % 3 == (t as usize) % 3) {
+            Some(sizes[i - 10])
+        } else if i >= 40 && i < 43 && !gen::is_point(t) {
+            Some([33, 65, 129][i - 40])
+        } else if t == 1 && i == 34 && !with_reader_side {
+            Some(65_537) // record numbers beyond 2^16
+        } else if t == 1 && (i == 34 || i == 35) && with_reader_side {
+            Some([16_385, 32_769][i - 34]) // index entries beyond 2^14 / 2^15
+        } else {
+            None
+        };
+        // files without any record: every combination of {cursor with index, cursor without, by path} x {finalize, drop}
+        let empty = matches!(i, 0 | 1 | 3 | 6 | 33);
+        let shapes: Vec<Shape> = if empty {
             vec![]
         } else if let Some(sz) = large {
             let small = Cfg::plain(1, 2);
             match t {
-                1 | 11 => (0..sz).map(|_| gen::shape(t, &mut r, &small)).collect(),
+                1 | 11 | 21 => (0..sz).map(|_| gen::shape(t, &mut r, &small)).collect(),
                 3 => vec![gen::shape_exact(t, &mut r, &small, 1, sz), gen::shape_exact(t, &mut r, &small, sz / 2, 2)],
-                _ => vec![gen::shape_exact(t, &mut r, &small, sz / 4, 3), gen::shape_exact(t, &mut r, &small, 2, sz / 3)],
+                8 | 18 | 28 => vec![gen::shape_exact(t, &mut r, &small, 1, sz), gen::shape_exact(t, &mut r, &small, 1, 2)],
+                _ => vec![gen::shape_exact(t, &mut r, &small, (sz / 4).max(1), 3), gen::shape_exact(t, &mut r, &small, 2, (sz / 3).max(2)), gen::shape_exact(t, &mut r, &small, 1, sz)],
             }
         } else {
             gen::sequence(t, &mut r, &c, 1, if big { 3 } else { ctx.pick(5, 40) }, i as u64)
@@ -166,6 +210,11 @@ pub fn run(ctx: &Ctx, with_reader_side: bool) -> Report {
         // must be the same well-formed file; C09 enumerates such histories exhaustively)
         let mid_finalize: Option<usize> = if i % 5 == 2 && nshapes >= 2 { Some(1 + i % (nshapes - 1)) } else { None };
         let by_path = i % 3 == 1;
+        // every 11th file: a finalize BEFORE the first write as well
+        let pre_finalize = i % 11 == 5;
+        if pre_finalize {
+            rep.count("files_with_a_finalize_before_the_first_write", 1);
+        }
         // C02 only: every 9th cursor-written file goes through ShapeWriter::new (no index destination)
         let no_index = !with_reader_side && !by_path && i % 9 == 6;
         if no_index {
@@ -179,12 +228,20 @@ pub fn run(ctx: &Ctx, with_reader_side: bool) -> Report {
         }
         // path-created pairs rotate through file-name styles (dots inside the stem, upper-case
         // extension, spaces / non-ASCII); the index always sits next to the .shp as <stem>.shx
-        let name = match if by_path { (i / 3) % 4 } else { 0 } {
+        let style = if by_path { (i / 3) % 6 } else { 0 };
+        let name = match style {
             1 => format!("t{}.{}.v2", t, i),
             2 => format!("t{} {} \u{e9}", t, i),
+            // ".shp" inside the stem, and inside a directory name
+            4 => format!("t{}_{}.shp.bak", t, i),
+            5 => {
+                let sub = format!("{}/dir{}_{}.shp.d", dir, t, i);
+                std::fs::create_dir_all(&sub).expect("harness: mkdir");
+                format!("dir{}_{}.shp.d/t{}_{}", t, i, t, i)
+            }
             _ => format!("t{}_{}", t, i),
         };
-        let upper = by_path && (i / 3) % 4 == 3;
+        let upper = by_path && style == 3;
         let shp_path = format!("{}/{}.{}", dir, name, if upper { "SHP" } else { "shp" });
         let shx_path = format!("{}/{}.shx", dir, name);
         rep.eval();
@@ -205,6 +262,9 @@ pub fn run(ctx: &Ctx, with_reader_side: bool) -> Report {
                 }
                 {
                     let mut w = ShapeWriter::from_path(&shp_path)?;
+                    if pre_finalize {
+                        w.finalize()?;
+                    }
                     for (k, s) in shapes.iter().enumerate() {
                         if bulk_tail == Some(k) {
                             break;
@@ -226,6 +286,9 @@ pub fn run(ctx: &Ctx, with_reader_side: bool) -> Report {
                 let mut shx = Cursor::new(Vec::new());
                 {
                     let mut w = if no_index { ShapeWriter::new(&mut shp) } else { ShapeWriter::with_shx(&mut shp, &mut shx) };
+                    if pre_finalize {
+                        w.finalize()?;
+                    }
                     for (k, s) in shapes.iter().enumerate() {
                         if bulk_tail == Some(k) {
                             break;
